@@ -18,6 +18,7 @@ def run_rules(pid: str, repo: str, tier: str) -> report.Result:
     res = report.Result(pid)
     res.analysed["modules"] = len(prog.modules)
     res.analysed["functions"] = len(prog.functions)
+    res.analysed["locals_renamed_to_reviewed_names"] = getattr(prog, "renamed_locals", 0)
     mod.check(prog, res, tier)
     return res
 
